@@ -2368,3 +2368,144 @@ theorem uuidFromText_uuidToTextAs (form : UuidForm) (bs : List Nat) (hl : bs.len
   | urn => exact uuidFromText_urn bs hl h
 
 end SpyneModel
+
+namespace SpyneModel
+set_option linter.unusedSimpArgs false
+set_option linter.unusedVariables false
+
+/-! ## every xs:base64Binary literal denotes bytes, and is read as them -/
+
+theorem b64Char_b64Val (c : Char) (v : Nat) (h : b64Val? false c = some v) : v < 64 ∧ b64Char false v = c := by
+  unfold b64Val? at h
+  simp only [] at h
+  split at h
+  · rename_i hr
+    simp at hr
+    simp only [Option.some.injEq] at h
+    subst h
+    refine ⟨by omega, ?_⟩
+    have : c.toNat - 65 < 26 := by omega
+    have e : 65 + (c.toNat - 65) = c.toNat := by omega
+    simp [b64Char, this, e, Char.ofNat_toNat]
+  · split at h
+    · rename_i hr
+      simp at hr
+      simp only [Option.some.injEq] at h
+      subst h
+      refine ⟨by omega, ?_⟩
+      have a : ¬ (c.toNat - 71 < 26) := by omega
+      have b : c.toNat - 71 < 52 := by omega
+      have e : 71 + (c.toNat - 71) = c.toNat := by omega
+      simp [b64Char, a, b, e, Char.ofNat_toNat]
+    · split at h
+      · rename_i hr
+        simp at hr
+        simp only [Option.some.injEq] at h
+        subst h
+        refine ⟨by omega, ?_⟩
+        have a : ¬ (c.toNat + 4 < 26) := by omega
+        have b : ¬ (c.toNat + 4 < 52) := by omega
+        have d : c.toNat + 4 < 62 := by omega
+        have e : c.toNat + 4 - 4 = c.toNat := by omega
+        simp [b64Char, a, b, d, e, Char.ofNat_toNat]
+      · by_cases h4 : c = '+'
+        · subst h4; simp at h; subst h; exact ⟨by decide, by decide⟩
+        · by_cases h5 : c = '/'
+          · subst h5; simp at h; subst h; exact ⟨by decide, by decide⟩
+          · simp [h4, h5] at h
+
+theorem b64_literal_denotes : ∀ (t : Text), xsdBase64Binary t = true →
+    ∃ bs, b64dec false t = some bs ∧ bytesOk bs ∧ b64enc false bs = t := by
+  intro t
+  fun_induction xsdBase64Binary t with
+  | case1 => intro _; exact ⟨[], by simp [b64dec], by unfold bytesOk; simp, by simp [b64enc]⟩
+  | case2 c1 c2 =>
+    intro h
+    simp only [Bool.and_eq_true] at h
+    obtain ⟨h1, h2⟩ := h
+    cases e1 : b64Val? false c1 with
+    | none => simp [e1] at h1
+    | some v1 =>
+      cases e2 : b64Val? false c2 with
+      | none => simp [e2] at h2
+      | some v2 =>
+        simp [e2] at h2
+        obtain ⟨l1, r1⟩ := b64Char_b64Val c1 v1 e1
+        obtain ⟨l2, r2⟩ := b64Char_b64Val c2 v2 e2
+        refine ⟨[v1 * 4 + v2 / 16], by simp [b64dec, e1, e2], ?_, ?_⟩
+        · unfold bytesOk; intro b hb; simp at hb; subst hb; omega
+        · have a1 : (v1 * 4 + v2 / 16) / 4 = v1 := by omega
+          have a2 : (v1 * 4 + v2 / 16) % 4 * 16 = v2 := by omega
+          simp only [b64enc, a1, a2, r1, r2]
+  | case3 c1 c2 c3 hne =>
+    intro h
+    simp only [Bool.and_eq_true] at h
+    obtain ⟨⟨h1, h2⟩, h3⟩ := h
+    cases e1 : b64Val? false c1 with
+    | none => simp [e1] at h1
+    | some v1 =>
+      cases e2 : b64Val? false c2 with
+      | none => simp [e2] at h2
+      | some v2 =>
+        cases e3 : b64Val? false c3 with
+        | none => simp [e3] at h3
+        | some v3 =>
+          simp [e3] at h3
+          obtain ⟨l1, r1⟩ := b64Char_b64Val c1 v1 e1
+          obtain ⟨l2, r2⟩ := b64Char_b64Val c2 v2 e2
+          obtain ⟨l3, r3⟩ := b64Char_b64Val c3 v3 e3
+          have hc3 : c3 ≠ '=' := by
+            intro e; subst e; simp [b64Val?] at e3
+          refine ⟨[v1 * 4 + v2 / 16, v2 % 16 * 16 + v3 / 4], ?_, ?_, ?_⟩
+          · rw [b64dec]
+            · simp [e1, e2, e3]
+            all_goals (intros; simp_all)
+          · unfold bytesOk; intro b hb; simp at hb; rcases hb with hb | hb <;> subst hb <;> omega
+          · have a1 : (v1 * 4 + v2 / 16) / 4 = v1 := by omega
+            have a2 : (v1 * 4 + v2 / 16) % 4 * 16 + (v2 % 16 * 16 + v3 / 4) / 16 = v2 := by omega
+            have a3 : (v2 % 16 * 16 + v3 / 4) % 16 * 4 = v3 := by omega
+            simp only [b64enc, a1, a2, a3, r1, r2, r3]
+  | case4 c1 c2 c3 c4 r hn1 hn2 ih =>
+    intro h
+    simp only [Bool.and_eq_true] at h
+    obtain ⟨⟨⟨⟨h1, h2⟩, h3⟩, h4⟩, h5⟩ := h
+    obtain ⟨bs, hd, hok, he⟩ := ih h5
+    cases e1 : b64Val? false c1 with
+    | none => simp [e1] at h1
+    | some v1 =>
+      cases e2 : b64Val? false c2 with
+      | none => simp [e2] at h2
+      | some v2 =>
+        cases e3 : b64Val? false c3 with
+        | none => simp [e3] at h3
+        | some v3 =>
+          cases e4 : b64Val? false c4 with
+          | none => simp [e4] at h4
+          | some v4 =>
+            obtain ⟨l1, r1⟩ := b64Char_b64Val c1 v1 e1
+            obtain ⟨l2, r2⟩ := b64Char_b64Val c2 v2 e2
+            obtain ⟨l3, r3⟩ := b64Char_b64Val c3 v3 e3
+            obtain ⟨l4, r4⟩ := b64Char_b64Val c4 v4 e4
+            refine ⟨(v1 * 4 + v2 / 16) :: (v2 % 16 * 16 + v3 / 4) :: (v3 % 4 * 64 + v4) :: bs, ?_, ?_, ?_⟩
+            · rw [b64dec]
+              · simp [e1, e2, e3, e4, hd]
+              all_goals (intros; simp_all)
+            · unfold bytesOk at hok ⊢
+              intro b hb
+              simp at hb
+              rcases hb with hb | hb | hb | hb
+              · subst hb; omega
+              · subst hb; omega
+              · subst hb; omega
+              · exact hok b hb
+            · have a1 : (v1 * 4 + v2 / 16) / 4 = v1 := by omega
+              have a2 : (v1 * 4 + v2 / 16) % 4 * 16 + (v2 % 16 * 16 + v3 / 4) / 16 = v2 := by omega
+              have a3 : (v2 % 16 * 16 + v3 / 4) % 16 * 4 + (v3 % 4 * 64 + v4) / 64 = v3 := by omega
+              have a4 : (v3 % 4 * 64 + v4) % 64 = v4 := by omega
+              simp only [b64enc, a1, a2, a3, a4, r1, r2, r3, r4, he]
+  | case5 t hn1 hn2 hn3 hn4 => intro h; cases h
+
+theorem dropXmlSpace_idem (s : Text) : dropXmlSpace (dropXmlSpace s) = dropXmlSpace s := by
+  simp [dropXmlSpace, List.filter_filter]
+
+end SpyneModel
